@@ -69,6 +69,9 @@ var toyProbes = []string{
 	`BEGIN { A0[0]; A0[3] += 2; A0[3]++; ++A0[4]; A0[4] %= 1; g0 = A0[(g1 = 3) % 5]--; print 0 + g0, 0 + g1, 0 + A0[3], 0 + A0[4], length(A0), (0 in A0) }`,
 	`function f0(p0) { g0++; return p0 + g0 } BEGIN { g1 = f0(g0) + f0(g0) * 2 % 97; print 0 + g0, 0 + g1; g2 = (g0 = 10) + f0(g0--); print 0 + g0, 0 + g2 }`,
 	`function f0(p0) { return f0(p0 + 1) } BEGIN { print 1; f0(0); print 2 }`,
+	// omitted arguments / locals are null at every call depth, also past the initial size of the VM's stack
+	`function s(n, u, v, w) { if (n > 0) return s(n - 1); return u + v + w } BEGIN { print 0 + s(3), 0 + s(40), 0 + s(200), 0 + s(25) }`,
+	`function c(n, cnt) { cnt += 5; if (n > 0) return c(n - 1); return cnt } function d(n, a, b) { if (n > 0) { a = n % 3; return d(n - 1) + (b + 0) } return a + b } BEGIN { print 0 + c(60), 0 + c(2), 0 + d(120), 0 + d(30) }`,
 }
 
 // hand-written probes for the shortcut paths, each with spellings that must agree
@@ -84,6 +87,8 @@ var probes = [][]string{
 	{`{ $2++; $2 += 2; A[$1]++; A[$1] *= 3; NF += 1; print; print A[$1], NF }`, `{ ($2++); ($2 += 2); (A[$1]++); (A[$1] *= 3); (NF += 1); print; print A[$1], NF }`},
 	{`function f(a, b, R) { R["k"] = a; b++; return a b } BEGIN { print f(1), f(1, 2), f(1, 2, A), A["k"] }`, `function f(a, b, R) { (R["k"] = a); (b++); return (a b) } BEGIN { print f(1), f(1, 2), f(1, 2, A), A["k"] }`},
 	{`BEGIN { s = "aXbXc"; n = gsub(/X/, "-", s); print n, s; $0 = "p q"; sub(/p/, "[&]"); print; sub(/zzz/, "y", $2); print NF }`, `BEGIN { s = "aXbXc"; n = (gsub(/X/, "-", s)); print n, s; $0 = "p q"; (sub(/p/, "[&]")); print; (sub(/zzz/, "y", $2)); print NF }`},
+	{`function s(n, u, v, w) { if (n > 0) return s(n - 1); return "[" u "|" v "|" w "]" } BEGIN { print s(1), s(25), s(40), s(200) }`,
+		`function s(n, u, v, w) { if (n > 0) return s(n - 1, "", "", ""); return "[" u "|" v "|" w "]" } BEGIN { print s(1, "", "", ""), s(25, "", "", ""), s(40, "", "", ""), s(200, "", "", "") }`},
 	{`{ { } }`, `{}`, `{ ; }`, `{ { } { { } } }`},
 	{`/a/ { { } { } } END { { } }`, `/a/ {} END {}`, `/a/ { ; } END { ; }`},
 	{`BEGIN { { } } END { if (0) { } ; print NR }`, `BEGIN {} END { if (0) ; print NR }`},
